@@ -192,4 +192,32 @@ pub mod verif {
         sort::{osu_legacy as sort_osu_legacy, TandemSorter},
         strains_vec::StrainsVec,
     };
+
+    /// Per-thread event sink for trace validation. Nothing is recorded
+    /// unless [`start`](trace::start) was called on the current thread.
+    pub mod trace {
+        use std::cell::RefCell;
+
+        thread_local! {
+            static SINK: RefCell<Option<Vec<String>>> = const { RefCell::new(None) };
+        }
+
+        /// Start recording events on the current thread.
+        pub fn start() {
+            SINK.with(|sink| *sink.borrow_mut() = Some(Vec::new()));
+        }
+
+        /// Stop recording and return the events recorded so far.
+        pub fn take() -> Vec<String> {
+            SINK.with(|sink| sink.borrow_mut().take().unwrap_or_default())
+        }
+
+        pub(crate) fn emit(event: impl FnOnce() -> String) {
+            SINK.with(|sink| {
+                if let Some(events) = sink.borrow_mut().as_mut() {
+                    events.push(event());
+                }
+            });
+        }
+    }
 }
